@@ -531,6 +531,13 @@ fn small_msid() -> BoxedStrategy<u32> {
     prop_oneof![5 => 0u32..4, 1 => any::<u32>()].boxed()
 }
 
+fn long_text() -> BoxedStrategy<crate::refs::amf0::S> {
+    use crate::refs::amf0::S;
+    gen::pick(&[("a", 65_535u32), ("a", 65_471), ("a", 65_472), ("\u{e9}", 32_767), ("\u{e9}", 32_736), ("\u{20ac}", 21_845), ("\u{20ac}", 21_824), ("\u{1f600}", 16_383), ("\u{1f600}", 16_368), ("\u{e9}", 5_000), ("\u{1f600}", 300)])
+        .prop_map(|(u, r)| S::rep(u, r))
+        .boxed()
+}
+
 fn arg_value() -> BoxedStrategy<V> {
     // arguments handlers look at: numbers (stream ids, start positions), strings (keys, modes),
     // booleans, null, objects with the property names the handlers read
@@ -539,7 +546,10 @@ fn arg_value() -> BoxedStrategy<V> {
         4 => gen::amf_value(cfg),
         2 => prop_oneof![Just(0.0f64), Just(1.0), Just(2.0), Just(-1.0), Just(-2.0), Just(f64::NAN), Just(f64::INFINITY), Just(4294967296.0), Just(-0.5), Just(1e300)].prop_map(|f| V::Num(f.to_bits())),
         2 => gen::pick(&["live", "record", "append", "key", "", "NetStream.Play.Start", "NetStream.Publish.Start", "onMetaData", "@setDataFrame"]).prop_map(|s| st(s)),
-        2 => proptest::collection::vec((gen::pick(&["app", "code", "level", "description", "objectEncoding", "width", "framerate", "stereo", "encoder", "tcUrl"]), gen::amf_value(AmfCfg::SMALL)), 0..5)
+        // strings just below the AMF0 limit, made of 1-, 2-, 3- and 4-byte characters (a handler that
+        // shortens, slices or re-uses a name / key at a byte position must respect character boundaries)
+        1 => long_text().prop_map(V::Str),
+        2 => proptest::collection::vec((gen::pick(&["app", "code", "level", "description", "objectEncoding", "width", "framerate", "stereo", "encoder", "tcUrl"]), prop_oneof![6 => gen::amf_value(AmfCfg::SMALL), 1 => long_text().prop_map(V::Str)]), 0..5)
             .prop_map(|p| { let mut seen = std::collections::HashSet::new(); V::Obj(p.into_iter().filter(|(k, _)| seen.insert(*k)).map(|(k, v)| (crate::refs::amf0::S::lit(k), v)).collect()) }),
     ]
     .boxed()
